@@ -20,28 +20,28 @@ ASSUMPTIONS = []
 
 
 def run(prog, chk):
-    X.check_sinks(prog, chk)
-    X.check_readers(prog, chk)
-    X.text_bypass(prog, chk)
-    C02.root_synthesis(prog, chk)
+    chk.rule(X.check_sinks, prog, chk)
+    chk.rule(X.check_readers, prog, chk)
+    chk.rule(X.text_bypass, prog, chk)
+    chk.rule(C02.root_synthesis, prog, chk)
     from props import geomalg
-    geomalg.check_sites(prog, chk, "C05")  # the generated root satisfies the real-SVG predicate: xmlns literal, per presence case (A17 site root-extent)
-    C03.bypass(prog, chk)
-    C03.stable_sort(prog, chk)
-    C03.real_svg_scan(prog, chk)
-    C03.reader_defaults(prog, chk)
-    C03.no_precheck(prog, chk)
+    chk.rule(geomalg.check_sites, prog, chk, "C05")  # the generated root satisfies the real-SVG predicate: xmlns literal, per presence case (A17 site root-extent)
+    chk.rule(C03.bypass, prog, chk)
+    chk.rule(C03.stable_sort, prog, chk)
+    chk.rule(C03.real_svg_scan, prog, chk)
+    chk.rule(C03.reader_defaults, prog, chk)
+    chk.rule(C03.no_precheck, prog, chk)
     # the second pass is a pass-through of the first pass' output: everything C03 needs for a verbatim copy
-    C03.qualified_names(prog, chk)
-    C03.attrmap_keys_verbatim(prog, chk)
-    C03.writer_is_read_only(prog, chk)
-    C03.top_level_predicate(prog, chk)
-    C03.inner_events_guard(prog, chk)
-    C03.passthrough_str_ops(prog, chk)
-    C02.no_double_hyphen_literals(prog, chk)  # an ill-formed generated comment makes the second pass fail
-    C02.other_is_whole_input_event(prog, chk)  # every tag of the first pass' output went through the serialiser the second pass uses (nothing is emitted as written)
-    generated_comment_ops(prog, chk)
-    normalisation_idempotent(prog, chk)
+    chk.rule(C03.qualified_names, prog, chk)
+    chk.rule(C03.attrmap_keys_verbatim, prog, chk)
+    chk.rule(C03.writer_is_read_only, prog, chk)
+    chk.rule(C03.top_level_predicate, prog, chk)
+    chk.rule(C03.inner_events_guard, prog, chk)
+    chk.rule(C03.passthrough_str_ops, prog, chk)
+    chk.rule(C02.no_double_hyphen_literals, prog, chk)  # an ill-formed generated comment makes the second pass fail
+    chk.rule(C02.other_is_whole_input_event, prog, chk)  # every tag of the first pass' output went through the serialiser the second pass uses (nothing is emitted as written)
+    chk.rule(generated_comment_ops, prog, chk)
+    chk.rule(normalisation_idempotent, prog, chk)
     # findings of C02/C03 that do not break the fixed point are not obligations of this property
     drop = {
         "A13.root-attrs/postprocess:real-svg-bypass",  # version on a real-SVG root: T(x) of an svgdx document always has one
@@ -51,7 +51,7 @@ def run(prog, chk):
     }
     chk.obs = [o for o in chk.obs if not (o["key"] in drop)]
     from props import strops
-    strops.check_for(prog, chk, "C05")  # A14.str-ops: how this property's strings are cut up is a reviewed, frozen inventory
+    chk.rule(strops.check_for, prog, chk, "C05")  # A14.str-ops: how this property's strings are cut up is a reviewed, frozen inventory
 
 
 def normalisation_idempotent(prog, chk):
